@@ -79,6 +79,11 @@ func fnRestore(ctx *cmdContext, args map[string]any) (output respValue, err erro
 	_, absttl := args["absttl"]
 	_, replace := args["replace"]
 
+	if ttl < 0 {
+		output.data = respErrorString("ERR Invalid TTL value, must be >= 0")
+		return
+	}
+
 	output = ctx.dsc.restore(keyName, value, ttl, absttl, replace)
 	return
 }
